@@ -4,6 +4,7 @@ From Eino Require Import Base.Util Model.Concat Model.ConcatMsg Model.ConcatOrde
 From Eino Require Import Proofs.Concat Proofs.ConcatRechunk Proofs.ConcatMsg Proofs.ConcatMsgList.
 From Eino Require Import Proofs.ConcatOrder Proofs.ConcatOrderMsg Proofs.ConcatMsgSpec Proofs.ConcatUser.
 From Eino Require Import Proofs.ConcatKeyed Proofs.ConcatMsgMap.
+From Eino Require Import Proofs.ConcatSuffix Proofs.ConcatSuffixMsg Proofs.ConcatSuffixMap Proofs.ConcatAny Proofs.ConcatSplit.
 From Coq Require Import Sorting.Sorted Sorting.Permutation.
 
 (* Every theorem quantifies over the registry [U] of concat functions registered by the
@@ -109,6 +110,53 @@ Proof.
   split; [|repeat split; vm_compute; reflexivity].
   intros v H. cbn in H. destruct H as [<-|[<-|[<-|[]]]]; reflexivity.
 Qed.
+
+(* Streams of an interface type (a node whose output type is [any]; /repo commit c44e450):
+   the chunks — of any dynamic type, nil included — are concatenated by their common dynamic
+   type, like the values under one key of a map chunk.  Total, re-chunking invariant for
+   every non-empty prefix, independent of the map iteration order. *)
+Theorem any_stream_total :
+  forall (U : UserFn) (L : UserLaw) (vs : list cval), concat_stream_any vs <> Panic.
+Proof. exact @concat_stream_any_no_panic. Qed.
+Print Assumptions any_stream_total.
+
+Theorem any_stream_rechunk :
+  forall (U : UserFn) (L : UserLaw) (xs ys : list cval),
+    xs <> [] ->
+    match concat_stream_any xs with
+    | Ok c =>
+        match concat_stream_any (c :: ys), concat_stream_any (xs ++ ys) with
+        | Ok a, Ok b => a = b
+        | Err _, Err _ => True
+        | _, _ => False
+        end
+    | Err _ => exists e, concat_stream_any (xs ++ ys) = Err e
+    | Panic => False
+    end.
+Proof. exact @concat_stream_any_rechunk. Qed.
+Print Assumptions any_stream_rechunk.
+
+Theorem any_stream_deterministic :
+  forall (U : UserFn) (L : UserLaw) (s : sched) (vs vs' : list cval),
+    sched_ok s -> Forall2 ceq vs vs' ->
+    match concat_stream_any_o s vs, concat_stream_any vs' with
+    | Ok a, Ok b => ceq a b
+    | Err _, Err _ => True
+    | Panic, Panic => True
+    | _, _ => False
+    end.
+Proof. exact @concat_stream_any_order. Qed.
+Print Assumptions any_stream_deterministic.
+
+Example any_stream_nonvacuous :
+  concat_stream_any [CNil; CStr "a"; CNil; CStr "b"] = Ok (CStr "ab") /\
+  concat_stream_any [CNil; CNil] = Ok CNil /\
+  concat_stream_any [CStr "a"; CNum 0 1] = Err E_TYPE /\
+  concat_stream_any [COther 4 0; COther 4 0; CNil] = Ok (COther 4 0) /\
+  concat_stream_any [CMap 0 [("k"%string, CStr "x")]; CNil; CMap 0 [("k"%string, CStr "y")]] = Ok (CMap 0 [("k"%string, CStr "xy")]) /\
+  exists c, concat_stream_any [CNil; CStr "a"] = Ok c /\ concat_stream_any [c; CNum 0 1] = Err E_TYPE /\
+            concat_stream_any [CNil; CStr "a"; CNum 0 1] = Err E_TYPE.
+Proof. repeat split; try (vm_compute; reflexivity). eexists. repeat split; vm_compute; reflexivity. Qed.
 
 (* The same for concatMaps on any number of maps (the Extra maps of chat messages: no
    single-chunk shortcut, even the empty prefix is allowed). *)
@@ -273,6 +321,19 @@ Theorem interleaving_independent :
     end.
 Proof. exact @kstep_interleaving. Qed.
 Print Assumptions interleaving_independent.
+
+(* ... and on nothing else: visiting the keys in any order (Go's map iteration) gives the same map *)
+Theorem keyed_order_independent :
+  forall (A : Type) (kc : list A -> res A) (ord : list string -> list string) (ms : list (list (string * A))),
+    (forall l, Permutation (ord l) l) ->
+    match kstep_o kc ord ms, kstep kc ms with
+    | Ok a, Ok b => forall k, alist_get k a = alist_get k b
+    | Ok _, _ => False
+    | _, Ok _ => False
+    | _, _ => True
+    end.
+Proof. exact @kstep_order. Qed.
+Print Assumptions keyed_order_independent.
 
 (* both concatMaps models are instances of that pass *)
 Theorem maps_are_keyed :
@@ -554,4 +615,129 @@ Proof.
   split; [intros x; apply Permutation_sym, Permutation_rev|].
   split; [vm_compute; reflexivity|]. split; [vm_compute; reflexivity|].
   eexists. split; [vm_compute; reflexivity|]. split; reflexivity.
+Qed.
+
+(* ------------------------------------------------------------------ any way of splitting *)
+
+(* Beyond "a prefix first, then the rest": cut the chunk list into consecutive non-empty
+   groups in ANY way, concatenate every group, then concatenate the results: the value is the
+   one of concatenating everything at once, and it fails in the same cases (a group that
+   fails alone makes the whole fail).  This is what happens when nested graphs, branches or
+   tool nodes concatenate their part of a stream before an outer node concatenates again.
+   It needs, besides the prefix law, the mirror-image suffix law F (xs ++ [F! ys]) ~ F (xs ++ ys)
+   (Proofs/ConcatSuffix*.v); registered functions must satisfy that one too ([UserLawS]). *)
+Theorem harness_registry_lawful_s : @UserLawS harness_user.
+Proof. exact harness_user_law_s. Qed.
+
+Theorem concat_split_any :
+  forall (U : UserFn) (L : UserLaw) (LS : UserLawS) (t : cty) (groups : list (list cval)) (cs : list cval),
+    Forall2 (fun g c => g <> [] /\ concat_stream g = Ok c) groups cs ->
+    Forall (fun v => dyn_ty v = Some t) (List.concat groups) ->
+    match concat_stream cs, concat_stream (List.concat groups) with
+    | Ok a, Ok b => a = b
+    | Ok _, _ => False
+    | _, Ok _ => False
+    | _, _ => True
+    end.
+Proof. exact @concat_stream_split. Qed.
+Print Assumptions concat_split_any.
+
+Theorem concat_split_fails :
+  forall (U : UserFn) (L : UserLaw) (LS : UserLawS) (t : cty) (gs1 : list (list cval)) (g : list cval) (gs2 : list (list cval)),
+    g <> [] -> is_ok (concat_stream g) = false ->
+    Forall (fun v => dyn_ty v = Some t) (List.concat (gs1 ++ g :: gs2)) ->
+    is_ok (concat_stream (List.concat (gs1 ++ g :: gs2))) = false.
+Proof. exact @concat_stream_split_fails. Qed.
+Print Assumptions concat_split_fails.
+
+(* a single segment anywhere in the list *)
+Theorem concat_segment :
+  forall (U : UserFn) (L : UserLaw) (LS : UserLawS) (t : cty) (pre seg post : list cval),
+    seg <> [] -> Forall (fun v => dyn_ty v = Some t) (pre ++ seg ++ post) ->
+    match concat_stream seg with
+    | Ok c =>
+        match concat_stream (pre ++ c :: post), concat_stream (pre ++ seg ++ post) with
+        | Ok a, Ok b => a = b
+        | Ok _, _ => False
+        | _, Ok _ => False
+        | _, _ => True
+        end
+    | _ => is_ok (concat_stream (pre ++ seg ++ post)) = false
+    end.
+Proof. exact @concat_stream_segment. Qed.
+Print Assumptions concat_segment.
+
+(* the same for messages, message lists and maps of messages through the stream entry points *)
+Theorem msg_split_any :
+  forall (U : UserFn) (L : UserLaw) (LS : UserLawS),
+    (forall groups cs, Forall2 (fun g c => g <> [] /\ msg_stream g = Ok c) groups cs ->
+       match msg_stream cs, msg_stream (List.concat groups) with
+       | Ok a, Ok b => a = b | Ok _, _ => False | _, Ok _ => False | _, _ => True end) /\
+    (forall groups cs, Forall2 (fun g c => g <> [] /\ msglist_stream g = Ok c) groups cs ->
+       match msglist_stream cs, msglist_stream (List.concat groups) with
+       | Ok a, Ok b => a = b | Ok _, _ => False | _, Ok _ => False | _, _ => True end) /\
+    (forall groups cs, Forall2 (fun g c => g <> [] /\ mmap_stream g = Ok c) groups cs ->
+       match mmap_stream cs, mmap_stream (List.concat groups) with
+       | Ok a, Ok b => a = b | Ok _, _ => False | _, Ok _ => False | _, _ => True end) /\
+    (forall groups cs, Forall2 (fun g c => g <> [] /\ concat_stream_any g = Ok c) groups cs ->
+       match concat_stream_any cs, concat_stream_any (List.concat groups) with
+       | Ok a, Ok b => a = b | Ok _, _ => False | _, Ok _ => False | _, _ => True end).
+Proof.
+  intros U L LS. split; [exact msg_stream_split|]. split; [exact msglist_stream_split|].
+  split; [exact mmap_stream_split|exact any_stream_split].
+Qed.
+Print Assumptions msg_split_any.
+
+Theorem msg_segment :
+  forall (U : UserFn) (L : UserLaw) (LS : UserLawS) (pre seg post : list (option msg)),
+    seg <> [] ->
+    match msg_stream seg with
+    | Ok c =>
+        match msg_stream (pre ++ c :: post), msg_stream (pre ++ seg ++ post) with
+        | Ok a, Ok b => a = b
+        | Ok _, _ => False
+        | _, Ok _ => False
+        | _, _ => True
+        end
+    | _ => is_ok (msg_stream (pre ++ seg ++ post)) = false
+    end.
+Proof. exact @msg_stream_segment. Qed.
+Print Assumptions msg_segment.
+
+(* the suffix law itself, for ConcatMessages (every suffix, also the empty one) *)
+Theorem msg_concat_suffix :
+  forall (U : UserFn) (L : UserLaw) (LS : UserLawS) (xs ys : list (option msg)),
+    match concat_msgs ys with
+    | Ok c =>
+        match concat_msgs (xs ++ [Some c]), concat_msgs (xs ++ ys) with
+        | Ok a, Ok b => a = b
+        | Ok _, _ => False
+        | _, Ok _ => False
+        | _, _ => True
+        end
+    | _ => is_ok (concat_msgs (xs ++ ys)) = false
+    end.
+Proof. exact @msgs_suffix. Qed.
+Print Assumptions msg_concat_suffix.
+
+Example split_any_nonvacuous :
+  let g1 := [Some ex_m1] in let g2 := [Some ex_m2; Some ex_m3] in let g3 := [Some ex_m3; Some ex_m1; Some ex_m2] in
+  exists c2 c3, msg_stream g1 = Ok (Some ex_m1) /\ msg_stream g2 = Ok c2 /\ msg_stream g3 = Ok c3 /\
+    exists r, msg_stream [Some ex_m1; c2; c3] = Ok r /\ msg_stream (g1 ++ g2 ++ g3) = Ok r /\ c2 <> Some ex_m2.
+Proof.
+  eexists. eexists. split; [reflexivity|]. split; [vm_compute; reflexivity|]. split; [vm_compute; reflexivity|].
+  eexists. split; [vm_compute; reflexivity|]. split; [vm_compute; reflexivity|]. discriminate.
+Qed.
+
+Example split_any_generic_nonvacuous :
+  let m k v := CMap 0 [(k, v)] in
+  let g1 := [m "a"%string (CStr "x"); m "l"%string (COther 7 2)] in
+  let g2 := [m "a"%string (CStr "y")] in
+  let g3 := [m "l"%string (COther 7 1); m "a"%string (CStr "z"); m "l"%string (COther 7 2)] in
+  exists c1 c3, concat_stream g1 = Ok c1 /\ concat_stream g3 = Ok c3 /\
+    concat_stream [c1; m "a"%string (CStr "y"); c3] = concat_stream (g1 ++ g2 ++ g3) /\
+    concat_stream (g1 ++ g2 ++ g3) = Ok (CMap 0 [("a"%string, CStr "xyz"); ("l"%string, COther 7 5)]).
+Proof.
+  eexists. eexists. split; [vm_compute; reflexivity|]. split; [vm_compute; reflexivity|].
+  split; vm_compute; reflexivity.
 Qed.
